@@ -181,6 +181,7 @@ def tasks(tier):
         k += 1
     out.append({"kind": "reject"})
     out.append({"kind": "paren-pairs"})
+    out.append({"kind": "callables"})
     return out
 
 
@@ -194,11 +195,11 @@ BOUNDS = {
     "(both associations of and/or, not over compounds, comparisons under and/or) in word and tight spelling; each used as cond, as unless, and as an "
     "(the guarded transition declared as a.to(b, ...), b.from_(a, ...) or b.from_.any(...), by task) "
     "element of cond=[plain, expr]; comparisons over and/or/not operands with int values; names provided by machine methods (reads logged; values symbolic ints in [-2,2] / bools), and - depth 2, "
-    "symbol spelling - by plain attributes, properties, the model, coroutine methods (plain names only); 5 pairs of expressions differing only in parentheses used together in one cond list; 27 strings that must be rejected at instantiation, alone and next to valid guard entries.",
+    "symbol spelling - by plain attributes, properties, the model, coroutine methods (plain names only); 5 pairs of expressions differing only in parentheses used together in one cond list; entries given as callables (two / three lambdas, lambda + name, two functions sharing a __name__, one function twice, lambda cond + lambda unless) with symbolic values; 27 strings that must be rejected at instantiation, alone and next to valid guard entries.",
     "thorough": "leaves also False and 1, word operators with tight comparisons, int values at depth 2.",
 }
 OUTSIDE = "nesting deeper than 2; string/float literals and values; names spelled exactly 'v'; coroutine operands inside expressions (C05, known finding); guard names provided by several objects at once (C12)"
-OBLIGATIONS = ["paren-pair", "fired", "blocked", "short-circuit", "chained", "tight-spelling", "rejected-syntax", "rejected-unknown-name", "rejected-outside-grammar", "unless", "list"]
+OBLIGATIONS = ["callable-entries", "paren-pair", "fired", "blocked", "short-circuit", "chained", "tight-spelling", "rejected-syntax", "rejected-unknown-name", "rejected-outside-grammar", "unless", "list"]
 ASSUMPTIONS = [
     "read order is compared after collapsing immediately repeated reads of one name: the library reads the middle operand of a chained comparison twice, which tests/test_spec_parser.py pins (xfail 'evaluate once')",
     "valid Python outside the documented grammar (a + b, a.b, a if b else c) must fail when the machine is instantiated; the exception type is not constrained",
@@ -266,7 +267,83 @@ def run_paren_pairs(ctx):
     ctx.cover("paren-pair")
 
 
+def run_callable_entries(ctx):
+    """cond / unless entries given as callables (lambdas, plain functions, the same function twice, functions that
+    merely share a __name__), alone and mixed with names: the transition is enabled iff every cond entry is truthy and
+    every unless entry is falsy."""
+    from statemachine import State, StateMachine
+    from statemachine.exceptions import InvalidDefinition
+
+    shapes = ["two-lambdas", "lambda+name", "same-name-functions", "same-function-twice", "lambda-cond+lambda-unless", "three-lambdas"]
+    shape = shapes[ctx.choose(len(shapes), "shape")]
+    vals = [ctx.sym_int(f"val.{i}", -1, 1) for i in range(3)]
+    calls = []
+
+    def reader(i):
+        def f(*a, **k):
+            calls.append(i)
+            return vals[i]
+
+        return f
+
+    with ctx.notracing():
+        def mk_named(i):
+            def check(*a, **k):  # same __name__ for every i
+                calls.append(i)
+                return vals[i]
+
+            return check
+
+        l0 = lambda *a, **k: (calls.append(0), vals[0])[1]  # noqa: E731
+        l1 = lambda *a, **k: (calls.append(1), vals[1])[1]  # noqa: E731
+        l2 = lambda *a, **k: (calls.append(2), vals[2])[1]  # noqa: E731
+        kw, conds, unlesses = {}, [], []
+        if shape == "two-lambdas":
+            kw["cond"] = [l0, l1]
+            conds = [0, 1]
+        elif shape == "three-lambdas":
+            kw["cond"] = [l0, l1, l2]
+            conds = [0, 1, 2]
+        elif shape == "lambda+name":
+            kw["cond"] = [l0, "named"]
+            conds = [0, 1]
+        elif shape == "same-name-functions":
+            kw["cond"] = [mk_named(0), mk_named(1)]
+            conds = [0, 1]
+        elif shape == "same-function-twice":
+            kw["cond"] = [l0, l0]
+            conds = [0]
+        else:
+            kw["cond"] = [l0]
+            kw["unless"] = [l1, l2]
+            conds, unlesses = [0], [1, 2]
+        attrs = {"a": State(initial=True), "b": State()}
+        attrs["go"] = attrs["a"].to(attrs["b"], **kw)
+        attrs["back"] = attrs["b"].to(attrs["a"])
+        attrs["named"] = lambda self: (calls.append(1), vals[1])[1]
+        attrs["named"].__qualname__ = "C08C.named"
+        cls = type(StateMachine)("C08C", (StateMachine,), attrs)
+    try:
+        sm = cls()
+    except InvalidDefinition as e:
+        raise Mismatch(f"valid-callable-entries-rejected:{shape}", f"{shape}: instantiation raised {e}")
+    del calls[:]
+    try:
+        sm.send("go")
+        fired = True
+    except sm.TransitionNotAllowed:
+        fired = False
+    want = all(bool(vals[i]) for i in conds) and not any(bool(vals[i]) for i in unlesses)
+    if fired != want:
+        raise Mismatch(f"callable-entries-not-a-conjunction:{shape}", f"{shape}: values {[int(v) for v in vals]}, transition {'fired' if fired else 'blocked'}, expected {'fired' if want else 'blocked'}; entries evaluated {calls}")
+    if fired and sorted(set(calls)) != sorted(conds + unlesses):
+        raise Mismatch(f"callable-entry-not-evaluated:{shape}", f"{shape}: the transition fired but only entries {calls} were evaluated")
+    ctx.cover("callable-entries")
+
+
 def run(ctx, params):
+    if params["kind"] == "callables":
+        return run_callable_entries(ctx)
     if params["kind"] == "reject":
         return run_reject(ctx)
     if params["kind"] == "paren-pairs":
